@@ -233,7 +233,7 @@ pub fn check_state(ctx: &Ctx, h: &[Op], t: &Tok) {
 
 pub fn run(tier: Tier) {
     let ctx = Ctx::new("C02", tier);
-    let depth = tier.pick(2, 3);
+    let depth = tier.pick(2, 4);
     let contents: &'static [&'static str] = &["b0", "b3", "b5"];
     let tp: &'static [&'static str] = &["t0"];
     let samples = Samples::new(6);
@@ -244,7 +244,7 @@ pub fn run(tier: Tier) {
         ehist::bfs(
             initial_states(contents, &[None, Some(7)]),
             depth,
-            tier.pick(200_000, 3_000_000),
+            tier.pick(200_000, 30_000_000),
             &next,
             &|h, t| {
                 if record {
